@@ -111,13 +111,84 @@ pub fn c15_one(vectored: bool, fill: usize, mode: u8, verbose: bool) -> Vec<(Str
     v
 }
 
+/// C19: the idle close of a client becomes due while its write buffer is that full: a request body fills the codec against a
+/// blocked transport, the peer answers early and resets the stream with NO_ERROR, the application lets go of everything
+/// (also the SendRequest); once the transport opens GOAWAY(NO_ERROR) must appear and the connection complete successfully.
+pub fn c19_one(vectored: bool, fill: usize, verbose: bool) -> Vec<(String, String, String)> {
+    let mut v = vec![];
+    let cfg = T2Cfg { role: Side::Client, peer_settings: vec![], client: Some(h2::client::Builder::new()), server: None, policy: IoPolicy { vectored, ..IoPolicy::default() } };
+    let mut t = T2::new(&cfg, vec![]);
+    let mut panics = vec![];
+    let mut sr = t.send_request.take().unwrap();
+    let flag = Flag::new(false);
+    let wk = waker_of(&flag);
+    let mut cx = std::task::Context::from_waker(&wk);
+    let _ = sr.poll_ready(&mut cx);
+    let (rf, mut ss) = sr.send_request(simple_request("/f", true), false).expect("send_request");
+    let sid = rf.stream_id().as_u32();
+    t.drive(100);
+    t.peer_ack_settings();
+    t.drive(100);
+    t.sh.lock().unwrap().set_write_blocked(t.role, true);
+    let chunk = if vectored { 250 } else { 1000 };
+    let mut left = fill;
+    while left > 9 {
+        let take = left.min(chunk + 9);
+        let _ = guarded(&mut panics, "send_data", || ss.send_data(bytes::Bytes::from(vec![0x55u8; take - 9]), false));
+        left -= take;
+    }
+    t.drive(100);
+    // early response, then "stop sending" (RFC 9113 8.1)
+    t.peer_response(sid, "200", true);
+    t.peer_send(&wf::rst_stream(sid, 0));
+    t.drive(100);
+    safe_drop(&mut panics, "ResponseFuture", Some(rf));
+    safe_drop(&mut panics, "SendStream", Some(ss));
+    safe_drop(&mut panics, "SendRequest", Some(sr));
+    let woken = t.conn_flag.is_set();
+    // (whether the connection task is woken here is judged by the X2 models; this sweep is about the GOAWAY that becomes due
+    // while the codec is full, so the task is polled in any case)
+    t.conn_flag.wake_by_ref_pub();
+    t.drive(100);
+    if verbose {
+        println!("connection task woken by the drops: {}", woken);
+        if let Conn::Client(c) = &t.conn {
+            let s = c.verif_snapshot();
+            println!("before the transport opens: refs={} counts={} streams={:?}", s.refs, s.counts, s.streams.iter().map(|x| x.chars().take(200).collect::<String>()).collect::<Vec<_>>());
+        }
+    }
+    unblock_and_quiesce(&mut t);
+    let goaways: Vec<(u32, u32)> = t.subject_frames().iter().filter_map(|f| if let Ok(Parsed::GoAway { last, code, .. }) = &f.parsed { Some((*last, *code)) } else { None }).collect();
+    if !goaways.iter().any(|g| g.1 == 0) {
+        v.push(("C19.idle-close".to_string(), "fill-sweep-no-goaway".into(), format!("write buffer filled with {} octets (vectored {}): the last stream and the last handle went while the transport was blocked; after it opened no GOAWAY(NO_ERROR) is on the wire: {:?} (connection {:?})", fill, vectored, goaways, t.conn_result)));
+    }
+    if t.conn_result.as_deref() != Some("ok") {
+        v.push(("C19.idle-close".into(), "fill-sweep-not-closed".into(), format!("write buffer filled with {} octets (vectored {}): the idle client connection did not complete successfully: {:?}", fill, vectored, t.conn_result)));
+    }
+    if verbose {
+        println!("fill {} vectored {}: goaways {:?} conn {:?}", fill, vectored, goaways, t.conn_result);
+        println!("{}", t.mon.transcript());
+    }
+    t.panics.extend(panics);
+    for p in t.finish() {
+        v.push(("C19.panic".into(), "fill-sweep".into(), format!("fill {} vectored {}: panic {}", fill, vectored, p.lines().next().unwrap_or(""))));
+    }
+    v
+}
+
 pub fn sweep(out: &mut Outcome, vios: &mut VioSet, quick: bool, prop: &str) {
     let levels = fill_levels(quick);
-    let jobs: Vec<(bool, usize, u8)> = if prop == "C17" { levels.iter().map(|(v, f)| (*v, *f, 0)).collect() } else { levels.iter().flat_map(|(v, f)| [(*v, *f, 0u8), (*v, *f, 1u8)]).collect() };
+    let jobs: Vec<(bool, usize, u8)> = if prop == "C17" || prop == "C19" { levels.iter().map(|(v, f)| (*v, *f, 0)).collect() } else { levels.iter().flat_map(|(v, f)| [(*v, *f, 0u8), (*v, *f, 1u8)]).collect() };
     let found = std::sync::Mutex::new(vec![]);
     par_for(jobs.len(), |i| {
         let (vec_io, fill, mode) = jobs[i];
-        let vs = if prop == "C17" { c17_one(vec_io, fill, false) } else { c15_one(vec_io, fill, mode, false) };
+        let vs = if prop == "C17" {
+            c17_one(vec_io, fill, false)
+        } else if prop == "C19" {
+            c19_one(vec_io, fill, false)
+        } else {
+            c15_one(vec_io, fill, mode, false)
+        };
         if !vs.is_empty() {
             found.lock().unwrap().push((jobs[i], vs));
         }
@@ -138,6 +209,7 @@ pub fn replay(v: &serde_json::Value) -> Option<bool> {
     let vs = match h {
         "c17.fill" => c17_one(vec_io, fill, true),
         "c15.fill" => c15_one(vec_io, fill, mode, true),
+        "c19.fill" => c19_one(vec_io, fill, true),
         _ => return None,
     };
     for (r, _, w) in &vs {
